@@ -117,7 +117,8 @@ def agent(conn):
                     try:
                         box.append(('RET', getattr(held[cmd[1]], cmd[2])(*cmd[3])))
                     except Exception as e:
-                        box.append(('EXC', type(e).__name__, e.args))
+                        c = e.__cause__
+                        box.append(('EXC', type(e).__name__, e.args, str(c) if c is not None else ''))
                 th = threading.Thread(target=work, name='harness-agent-thread')
                 th.start()
                 th.join()
